@@ -20,8 +20,12 @@ var errInjectedRead = errors.New("verif: injected read error")
 func (f *faultFS) arm(n int64) { f.fired.Store(false); f.left.Store(n) }
 func (f *faultFS) disarm()     { f.left.Store(0) }
 
-func (f *faultFS) New(path string) storage.File  { return &faultFile{File: f.FileSystem.New(path), fs: f} }
-func (f *faultFS) Open(path string) storage.File { return &faultFile{File: f.FileSystem.Open(path), fs: f} }
+func (f *faultFS) New(path string) storage.File {
+	return &faultFile{File: f.FileSystem.New(path), fs: f}
+}
+func (f *faultFS) Open(path string) storage.File {
+	return &faultFile{File: f.FileSystem.Open(path), fs: f}
+}
 
 type faultFile struct {
 	storage.File
